@@ -156,6 +156,9 @@ def gen_plan(seed, tier):
       steps.append({"op": "advance", "dt": r.pick([0.5, 2, 5, 11])})
     if r.chance(0.5):
       steps.append({"op": "advance", "dt": r.pick([0.2, 1, 3, 6])})
+  rh = Rng(mix(seed, "hotplug"))
+  if rh.chance(0.25):
+    cfg["hotplug"] = rh.pick(["all", "all", "most"])
   return {"prop": PROP, "seed": seed, "cfg": cfg, "steps": steps}
 
 
@@ -257,10 +260,25 @@ def _drive(sim, plan, known, hit):
   # ports are added before the handshake completes (no port_status yet)
   # -- simplest: recreate with explicit ports
   # (add_switch already connected; add ports now and let port_status flow)
+  hot = cfg.get("hotplug")
+  if hot:
+    # the switches complete their handshakes port-less (or with their
+    # first port only); every other port is plugged in afterwards and is
+    # known to the controller from an OFPPR_ADD port status alone
+    sim.probes["ports_hot_plugged_" + hot] += 1
+    if hot == "most":
+      for d in dpids:
+        sw = net.switches[d].sw
+        no = cfg["ports"][str(d)][0]
+        sw.add_port(sw.generate_port(no, name="p%d" % no))
+    sim.drain()
+    sim.advance(0.05)
+    sim.drain()
   for d in dpids:
     sw = net.switches[d].sw
     for no in cfg["ports"][str(d)]:
-      sw.add_port(sw.generate_port(no, name="p%d" % no))
+      if no not in sw.ports:
+        sw.add_port(sw.generate_port(no, name="p%d" % no))
   phys = {}         # (a,pa) -> (b,pb)
   up = {}           # (a,pa) -> bool
   last_up = {}      # (a,pa) -> time the direction was last up
